@@ -255,6 +255,8 @@ def load_report_from_file(filename):
     try:
         with open(filename, "r") as fh:
             js_content = fh.read()
+    except UnicodeDecodeError as e:
+        raise ReportLoadingError(str(e))
     except IOError as e:
         raise e  # re-raise as-is
 
@@ -264,6 +266,9 @@ def load_report_from_file(filename):
         js = json.loads(js_content)
     except ValueError as e:
         raise ReportLoadingError(str(e))
+
+    if not isinstance(js, dict):
+        raise ReportLoadingError("Cannot find a JSON object in file")
 
     report_version = js.get("report_version")
     if report_version is None:
